@@ -8,6 +8,7 @@ import BigtoolsModel.Stats2
 import BigtoolsModel.ZoomLevels
 import BigtoolsModel.BedSummary
 import BigtoolsModel.BBIWrite
+import BigtoolsModel.BBIWriteBed
 import BigtoolsModel.FileOf
 import BigtoolsModel.AutoSqlNTest
 /-! Driver commands `wig` and `bed`: the property-level observables of a written file, computed from the input
@@ -251,5 +252,26 @@ def wigBytesCase (c : Case) : List String :=
     [s!"BYTES {bytes.length} {hex16 (fnv64 bytes)}", s!"FILEOF {if same then "eq" else "differs"}"] ++
       (if c.opt "dump" "0" == "1" then [s!"HEX {hex bytes}"] else [])
   | _, _ => ["BYTES na"]
+
+/-- (B) for bigBed: the bytes `BW.writeBigBed` lays down for an uncompressed bigBed with a manual (or empty) list of
+    zoom sizes, as length + FNV-1a hash. Every statistic is a coverage depth, so the model is exact for all inputs. -/
+def bedBytesCase (c : Case) : List String :=
+  let recs : List (String × BW.BedE) := (c.records "E").map fun l =>
+    (l.getD 1 "", ⟨nat (l.getD 2 ""), nat (l.getD 3 ""), unhex (l.getD 4 "-")⟩)
+  let runs := groupRuns recs
+  let sizes := chromSizes c
+  let zooms := c.opt "zooms" "none"
+  let zs : Option (List Nat) := if zooms == "none" then some [] else if zooms == "auto" then none else
+    some (((zooms.splitOn ",").map nat).filter (· ≠ 0)).eraseDups
+  let autosql : List Nat := ((c.records "AUTOSQL").head?.map fun l => unhex (l.getD 1 "-")).getD BED3
+  match zs with
+  | some z =>
+    if c.opt "compress" "0" != "0" then ["BYTES na"] else
+    let sorted := (z.toArray.qsort (· < ·)).toList.take 10
+    let input := runs.map fun (n, es) => (nameBytes n, ((sizes.find? (·.1 == n)).map (·.2)).getD 0, es)
+    let bytes := BW.writeBigBed ⟨nat (c.opt "ips" "1024"), nat (c.opt "bs" "256"), sorted⟩ autosql
+      (ASN.fieldCount ASN.asciiCC true autosql) input
+    [s!"BYTES {bytes.length} {hex16 (fnv64 bytes)}"] ++ (if c.opt "dump" "0" == "1" then [s!"HEX {hex bytes}"] else [])
+  | none => ["BYTES na"]
 
 end Drv
